@@ -161,6 +161,20 @@ func (fx *FX) execInstr(fr *frame, st *State, ins ssa.Instruction) bool {
 		return fx.execUnOp(fr, st, t)
 	case *ssa.BinOp:
 		x, y := fr.val(t.X), fr.val(t.Y)
+		if (t.Op == token.EQL || t.Op == token.NEQ) && (x.NilIf != nil || y.NilIf != nil) {
+			p, o := x, y
+			if p.NilIf == nil {
+				p, o = y, x
+			}
+			if o.Addr == nil && o.T.Sort == SRef && o.T.S == "0" {
+				e := *p.NilIf
+				if t.Op == token.NEQ {
+					e = Not(e)
+				}
+				fr.vals[t] = Val{T: fx.define(t.Name(), e), Typ: t.Type()}
+				return true
+			}
+		}
 		fr.vals[t] = Val{T: fx.define(t.Name(), fx.binop(fr, st, t.Op, x, y, t.X.Type(), t.Pos())), Typ: t.Type()}
 		return true
 	case *ssa.Convert:
@@ -351,6 +365,11 @@ func strAt(s, i Term) Term {
 
 // termOf converts a Val to an SMT term (addresses become opaque references).
 func (fx *FX) termOf(fr *frame, st *State, v Val) Term {
+	if v.Addr != nil && v.NilIf != nil {
+		c := *v.NilIf
+		v.NilIf = nil
+		return Ite(c, T("0", SRef), fx.termOf(fr, st, v))
+	}
 	if v.Addr != nil {
 		a := v.Addr
 		switch a.Kind {
@@ -363,7 +382,8 @@ func (fx *FX) termOf(fr *frame, st *State, v Val) Term {
 		switch a.Kind {
 		case "elem":
 			if len(a.Path) == 0 {
-				fx.e.W.Declare("ptr_elem", "(declare-fun ptr_elem (Int (_ BitVec 64)) Int)")
+				// pointers to slice elements are negative references: never nil, never an allocated object
+				fx.e.W.Declare("ptr_elem", "(declare-fun ptr_elem (Int (_ BitVec 64)) Int)\n(assert (forall ((a Int) (i (_ BitVec 64))) (! (< (ptr_elem a i) 0) :pattern ((ptr_elem a i)))))")
 				return app("ptr_elem", SRef, sReg(a.Obj), bvbin("bvadd", sOff(a.Obj), a.Idx))
 			}
 		case "heap":
@@ -392,6 +412,9 @@ func (fx *FX) termOf(fr *frame, st *State, v Val) Term {
 func (fx *FX) addrOf(fr *frame, st *State, v ssa.Value, pos token.Pos) *Addr {
 	x := fr.val(v)
 	if x.Addr != nil {
+		if x.NilIf != nil {
+			fx.safe(fr, st, "nil dereference", Not(*x.NilIf), pos)
+		}
 		return x.Addr
 	}
 	// a pointer held as a term
